@@ -1158,7 +1158,7 @@ func (g *gen) sequence(control bool) Case {
 		a := Case{Op: "node", Kind: "seq/genuine", Extra: hx(e), Model: true}
 		b := Case{Op: "node", Kind: "seq/sig-flipped", Extra: hx(bad), Model: true}
 		if first {
-			steps = append(steps, b, a)
+			steps = append(steps, b) // the genuine entry is not shown to the process before the tampered copies
 		} else {
 			steps = append(steps, a, b)
 		}
